@@ -368,7 +368,7 @@ class Emitter:
                 k -= 1
             has_where = re.search(r'\bwhere\b', m[fn_kw:sig_end]) is not None
             if has_where and m[k] != ',':
-                ins(k + 1, [sup(',')])
+                ins(k + 1, [sup(',')], seq=30)
             ins(sig_end, cl, seq=10)
 
         if bo is None:
